@@ -121,6 +121,14 @@ impl BBSplusPoKSignature {
         let r3_cap = Scalar::from_bytes_be(&bytes[208..240])
             .map_err(|_| Error::InvalidProofOfKnowledgeSignature)?;
 
+        // octets_to_proof: none of the proof points may be the identity
+        if bool::from(Abar.is_identity())
+            || bool::from(Bbar.is_identity())
+            || bool::from(D.is_identity())
+        {
+            return Err(Error::InvalidProofOfKnowledgeSignature);
+        }
+
         let mut m_cap: Vec<Scalar> = Vec::new();
 
         for chunk in bytes[240..].chunks_exact(32) {
@@ -876,6 +884,17 @@ where
     let R = disclosed_indexes.len();
 
     let L = U + R;
+
+    // also for proofs and keys that did not come through from_bytes
+    if bool::from(proof.Abar.is_identity())
+        || bool::from(proof.Bbar.is_identity())
+        || bool::from(proof.D.is_identity())
+        || bool::from(pk.0.is_identity())
+    {
+        return Err(Error::PoKSVerificationError(
+            "identity point in proof or public key".to_owned(),
+        ));
+    }
 
     for &i in disclosed_indexes {
         if i > L - 1 {
